@@ -135,6 +135,9 @@ def row1 {Ct} (P : XP Ct) (cfg : CCfg) (t : CTape) (n sn : Bytes) (pq : Nat) (fp
       | none => .exit err
       | some pqf => .next { s with pqf := some pqf }
     | _, _ => .stuck "factor"
+  -- the key-selection loop (`Loop:`) is `selectKey`; the mode switch only picks the inner-data literal
+  | ("label", "Loop", _, _) => .next s
+  | ("switch", "c.mode", ["ExchangeModeTemporary"], _) => .next s
   -- random draws, TL encoding and RSA_PAD do not fail in the model (I/O and rand errors only)
   | ("callerr", "crypto.RandInt256", _, _) => .next s
   | ("callerr", "pqInnerData.Encode", _, _) => .next s
